@@ -91,6 +91,31 @@ theorem nzMask_def (rc ec : List Rat) :
 theorem isEmpty_eq {α : Type} (l : List α) : l.isEmpty = decide (l.length = 0) := by
   cases l <;> simp
 
+/-- the two operands of `np.logical_and` exchanged (used as an oriented rewrite, with explicit arguments) -/
+theorem nzMask_swap (ec rc : List Rat) : nzMask ec rc = nzMask rc ec := by
+  unfold nzMask
+  induction rc generalizing ec with
+  | nil => cases ec <;> rfl
+  | cons r rc ih =>
+    cases ec with
+    | nil => rfl
+    | cons e ec => simp only [List.map_cons, List.zipWith_cons_cons, ih, Bool.and_comm]
+
+/-- `np.abs(est - ref)` for `np.abs(ref - est)` (used as an oriented rewrite, with explicit arguments) -/
+theorem absdiff_swap (ec rc : List Rat) :
+    (List.zipWith (fun x1 x2 => x1 - x2) ec rc).map Rat.abs = (List.zipWith (fun x1 x2 => x1 - x2) rc ec).map Rat.abs := by
+  induction rc generalizing ec with
+  | nil => cases ec <;> rfl
+  | cons r rc ih =>
+    cases ec with
+    | nil => rfl
+    | cons e ec =>
+      simp only [List.zipWith_cons_cons, List.map_cons, ih, List.cons.injEq, and_true]
+      rw [← Rat.abs_neg, neg_sub]
+
+theorem zero_eq_rat (x : Rat) : (0 = x) = (x = 0) := propext eq_comm
+theorem zero_eq_nat (x : Nat) : (0 = x) = (x = 0) := propext eq_comm
+
 theorem nzMask_cons (r e : Rat) (rc ec : List Rat) :
     nzMask (r :: rc) (e :: ec) = (decide (e ≠ 0) && decide (r ≠ 0)) :: nzMask rc ec := rfl
 theorem nzMask_nil_left (ec : List Rat) : nzMask [] ec = [] := by cases ec <;> rfl
